@@ -57,6 +57,8 @@ func genConfig(t *rapid.T, o genOpts) Config {
 	}
 	cfg.ViaDefaults = rapid.IntRange(0, 4).Draw(t, "cfg_via_defaults") == 0
 	cfg.GlobalTypes = rapid.IntRange(0, 3).Draw(t, "cfg_global_types") == 0
+	// (0: the library default; small values turn a GET toward a Connect backend into a POST)
+	cfg.MaxGetURL = uint32(rapid.SampledFrom([]int{0, 0, 0, 0, 1, 64, 200, 8192}).Draw(t, "cfg_max_get_url"))
 	if rapid.IntRange(0, 3).Draw(t, "cfg_other_service") == 0 {
 		// a second service with options of its own, registered before or after: nothing of it may
 		// show in how the Bench service is served
@@ -444,6 +446,7 @@ func genBackend(t *rapid.T, c *Client, o genOpts) Backend {
 	if b.Kind == "ok" {
 		b.OKMessage = rapid.SampledFrom([]string{"", "", "", "OK", "all good"}).Draw(t, "ok_message")
 	}
+	b.EarlyHeaders = rapid.IntRange(0, 2).Draw(t, "early_headers") == 0
 	b.CloseBody = rapid.IntRange(0, 2).Draw(t, "close_body") == 0
 	if b.CloseBody {
 		b.CloseAgain = rapid.Bool().Draw(t, "close_again")
